@@ -16,6 +16,7 @@ let table = [
   ("abi", Model.entry_abi);
   ("gt", Model.entry_gt);
   ("ed", Model.entry_ed);
+  ("edcodec", Model.entry_edcodec);
   ("adaptor", Model.entry_adaptor);
   ("adaptorgas", Model.entry_adaptor_gas);
   ("firstevent", Model.entry_firstevent);
